@@ -7,13 +7,18 @@
 (*          number of encoded cells (= n);                                 *)
 (*  vec   : a sequence bound to vector<e, d> is accepted iff it has        *)
 (*          exactly d elements; a refusal leaves count and bytes as before;*)
-(*  rowtc : a row of k columns is read into a tuple of arity a iff a = k.  *)
+(*  rowtc : a row of k columns is read into a tuple of arity a iff a = k;  *)
+(*  writer: whatever sequence of directly written cells and appended,     *)
+(*          already serialised rows one RowWriter sees, the count it       *)
+(*          reports is the number of cells it holds.                       *)
 (* Records of `vh-cql c17-whole`.                                          *)
 (***************************************************************************)
 EXTENDS Naturals, Sequences, Json, IOUtils, TLC
 Rec == ndJsonDeserialize(IOEnv.TRACE)
 VARIABLE l
 MaxValues == 65535
+\* a writer step is 0 (one cell written directly) or k > 0 (an already serialised row of k - 1 values appended)
+Cells(steps) == LET F[i \in 0..Len(steps)] == IF i = 0 THEN 0 ELSE F[i - 1] + (IF steps[i] = 0 THEN 1 ELSE steps[i] - 1) IN F[Len(steps)]
 OK(r) ==
   /\ r.panic = 0
   /\ CASE r.kind = "row" -> IF r.n <= MaxValues THEN r.ok = 1 /\ r.count = r.n /\ r.cells = r.n ELSE r.ok = 0
@@ -21,6 +26,7 @@ OK(r) ==
                             /\ (r.ok = 1 => r.count_after = r.count_before + 1 /\ r.buf_after > r.buf_before)
                             /\ (r.ok = 0 => r.count_after = r.count_before /\ r.buf_after = r.buf_before)      \* no byte of a mismatched value stays
        [] r.kind = "rowtc" -> r.ok = (IF r.arity = r.cols THEN 1 ELSE 0)
+       [] r.kind = "writer" -> r.bytes_ok = 1 /\ r.count = Cells(r.steps) /\ r.cells = Cells(r.steps)
        [] OTHER -> FALSE
 TraceInit == l = 1 /\ TLCSet(1, 1)
 TraceNext == l <= Len(Rec) /\ (IF OK(Rec[l]) THEN TRUE ELSE PrintT(<<"BAD", l>>)) /\ l' = l + 1
